@@ -9,6 +9,7 @@ import (
 
 // frame of the function body currently being executed (the verified function or an inlined callee)
 type frame struct {
+	loopIdx   map[ast.Node]int
 	key       string
 	results   []*types.Var
 	retStates []*retState
@@ -88,6 +89,7 @@ type modTarget struct {
 	idx       *Term // nil: whole row (or range when lo/hi are set)
 	lo, hi    *Term // absolute index range [lo,hi) inside the row
 	ghost     *GhostField // file-level ghost variable
+	all       bool        // the whole family (every object)
 }
 
 // modTargets evaluates a modifies clause expression to heap targets.
@@ -105,6 +107,50 @@ func (c *Ctx) modTargets(env *SpecEnv, cl *Clause) []modTarget {
 		// a, b, c lists are written as separate clauses; support "x.f" / "x" / "*x" / "x[lo:hi]"
 		if u, ok := x.(*SUn); ok && u.Op == "*" {
 			x = u.X
+		}
+		// allof(Type.field): the field of every object of that type (family-wide footprint)
+		if call, ok := x.(*SCall); ok {
+			if fid, ok := call.Fun.(*SIdent); ok && fid.Name == "allof" && len(call.Args) == 1 {
+				sel, ok := call.Args[0].(*SSel)
+				tid, ok2 := (interface{})(nil), false
+				if ok {
+					tid, ok2 = sel.X.(*SIdent)
+				}
+				if !ok || !ok2 {
+					env.fail("modifies: allof(Type.field) expected")
+				}
+				t := c.resolveTypeTextIn(tid.(*SIdent).Name, env.pkg)
+				stt, isSt := t.Underlying().(*types.Struct)
+				if !isSt {
+					env.fail("modifies: allof needs a struct type")
+				}
+				var ft types.Type
+				for i := 0; i < stt.NumFields(); i++ {
+					if stt.Field(i).Name() == sel.Name {
+						ft = stt.Field(i).Type()
+					}
+				}
+				if ft == nil {
+					if nt, isN := t.(*types.Named); isN {
+						if td := c.typeDecl(nt); td != nil {
+							for _, g := range td.Ghost {
+								if g.Name == sel.Name {
+									ft = c.resolveTypeText(g.Type)
+								}
+							}
+						}
+					}
+				}
+				if ft == nil {
+					env.fail("modifies: allof: no field %s", sel.Name)
+				}
+				var fams [][2]string
+				c.leafFamilies(c.elemPrefix(t)+"."+sel.Name, ft, &fams)
+				for _, f := range fams {
+					out = append(out, modTarget{fam: f[0], leaf: f[1], all: true})
+				}
+				return
+			}
 		}
 		if id, ok := x.(*SIdent); ok {
 			if _, bound := env.vars[id.Name]; !bound {
@@ -216,7 +262,9 @@ func (c *Ctx) applyContractSig(st *State, x *ast.CallExpr, pk *Pkg, sig *types.S
 	env.pkg = pk
 	c.bindCallEnv(env, sig, fd, recv, args)
 	for j, cl := range fc.Requires {
+		c.goalMode++
 		goal := env.boolTerm(cl.Expr)
+		c.goalMode--
 		goal = Implies(And(env.facts...), goal)
 		label := fmt.Sprintf("call%d:%s.requires#%d", ord, short, j+1)
 		if cl.Label != "" {
@@ -242,6 +290,13 @@ func (c *Ctx) applyContractSig(st *State, x *ast.CallExpr, pk *Pkg, sig *types.S
 				var gf []Term
 				st.ghosts["gv:"+t.ghost.Name] = c.fresh(c.resolveTypeText(t.ghost.Type), "ghost_"+t.ghost.Name, &gf)
 				st.assume(c, And(gf...))
+				continue
+			}
+			if t.all {
+				c.heap0(t.fam, t.leaf) // registers the family (leaf sort) if this is its first use
+				nh := c.declare("H_"+t.fam, c.famSort(t.leaf))
+				c.rangeAxiomHeap(nh, t.fam)
+				st.heaps[t.fam] = nh
 				continue
 			}
 			h := c.heapGet(st, t.fam, t.leaf)
@@ -303,7 +358,8 @@ func (c *Ctx) applyContractSig(st *State, x *ast.CallExpr, pk *Pkg, sig *types.S
 			continue // not proved in this tier, so not assumed either
 		}
 		t := post.boolTerm(cl.Expr)
-		st.assume(c, And(append(post.facts, t)...))
+		st.assume(c, And(post.facts...))
+		st.assumeSoft(c, t)
 		post.facts = nil
 	}
 	switch len(rvals) {
@@ -388,7 +444,7 @@ func (c *Ctx) inlineBodyFC(st *State, ft *ast.FuncType, body *ast.BlockStmt, rec
 	c.inlineDepth++
 	defer func() { c.inlineDepth-- }()
 	saved := c.fr
-	c.fr = &frame{fc: fc, pkg: c.pkg, sig: sig, key: c.inlineKey}
+	c.fr = &frame{fc: fc, pkg: c.pkg, sig: sig, key: c.inlineKey, loopIdx: numberLoops(body)}
 	defer func() { c.fr = saved }()
 	c.initDefers(st, body)
 	c.bindParams(st, ft, recvFL, recv, args)
